@@ -47,6 +47,11 @@ def make_lr(spec):
     every = int(spec['every'])
     return lambda t: jnp.asarray(v, jnp.float32) * jnp.power(
         jnp.asarray(0.5, jnp.float32), jnp.asarray(t // every, jnp.float32))
+  if k == 'optax_linear':
+    # a stock optax schedule (its result dtype follows the counter's type);
+    # only used by properties that need no reference value (C07, C14)
+    import optax
+    return optax.linear_schedule(v, 0.1 * v, int(spec.get('T', 16)))
   raise ValueError(k)
 
 
